@@ -113,6 +113,24 @@ Theorem c12_range_contains : forall unit instants, 0 < unit ->
   (forall t, In t instants -> lo <= t <= hi) /\ lo <= 0 /\ lo + unit <= hi.
 Proof. exact range_contains. Qed.
 
+(** The files named in result.js's artifact tree are exactly the files left
+    once removeNonUploadableFiles has run - `#name#` and `name~` files are in
+    neither - provided the actors left only regular files and symbolic
+    links. *)
+Theorem c12_listed_tree_is_what_survives : forall cs,
+  forallb all_uploadable cs = true -> listed_in cs = surviving_in cs.
+Proof. exact listed_tree_is_what_survives. Qed.
+
+(** Without the proviso the statement is false of the code: a fifo (socket,
+    device) left by an actor is listed, then removed. *)
+Example c12_listed_tree_with_fifo_refuted :
+  exists cs, listed_in cs <> surviving_in cs /\
+             listed_in cs = [[bs "artifacts"; bs "a"; bs "pipe1"]] /\ surviving_in cs = [].
+Proof.
+  exists [NDir (bs "artifacts") [NDir (bs "a") [NFile (bs "pipe1") KOther; NFile (bs "f~") KReg; NFile (bs "#x#") KReg]]].
+  vm_compute. repeat split. discriminate.
+Qed.
+
 (** Non-vacuity. *)
 Example c12_nonvacuous_link :
   let d := prepare_dirs (path_of_bytes (bs "a/b/out")) (bs "20260930221636") in
@@ -131,6 +149,15 @@ Example c12_nonvacuous_table :
   (artifacts_survive (run_end (f false true) true no_mishap) = true /\ e_exit_nonzero (run_end (f false true) true no_mishap) = true) /\
   (* clean, --clear -k: everything goes *)
   rundir_survives (run_end (f true true) false no_mishap) = false.
+Proof. vm_compute. repeat split. Qed.
+
+Example c12_nonvacuous_tree :
+  let cs := [NDir (bs "artifacts") [NDir (bs "alice") [NFile (bs "file.txt") KReg; NFile (bs "backup~") KReg;
+                                                          NFile (bs "#edit#") KReg; NFile (bs "#half~") KReg;
+                                                          NDir (bs "old~") [NFile (bs "kept.txt") KSym]]];
+             NFile (bs "result.js") KReg] in
+  forallb all_uploadable cs = true /\
+  listed_in cs = [[bs "artifacts"; bs "alice"; bs "file.txt"]; [bs "artifacts"; bs "alice"; bs "old~"; bs "kept.txt"]; [bs "result.js"]].
 Proof. vm_compute. repeat split. Qed.
 
 Example c12_nonvacuous_range :
